@@ -36,8 +36,23 @@ impl DiagnosticAction {
         }
     }
 
+    /// A diagnostic lies in the scope of this action when its range shares at least one
+    /// character with it: ranges that merely touch (a diagnostic starting at column 0 of the
+    /// line after the scope) do not count. An empty range counts when the scope contains its
+    /// position.
+    pub fn is_in_scope(&self, range: &TextRange) -> bool {
+        if range.is_empty() {
+            self.range.contains(range.start())
+        } else {
+            match self.range.intersect(*range) {
+                Some(common) => !common.is_empty(),
+                None => false,
+            }
+        }
+    }
+
     pub fn is_match(&self, is_disable: bool, range: &TextRange, code: &DiagnosticCode) -> bool {
-        if self.range.intersect(*range).is_none() {
+        if !self.is_in_scope(range) {
             return false;
         }
 
